@@ -14,7 +14,6 @@
 """Symbolic list."""
 
 import dataclasses
-import math
 import numbers
 import typing
 from typing import Any, Callable, Dict, Iterable, Iterator, Optional, Tuple, Union
@@ -426,6 +425,18 @@ class List(list, base.Symbolic, pg_typing.CustomTyping):
       # Generates no update as old value is the same as the new value.
       if old_value is value:
         return None
+      # Assigning MISSING_VALUE to an existing element removes it.
+      if pg_typing.MISSING_VALUE == value:
+        if index < 0:
+          index += len(self)
+        list.__delitem__(self, index)
+        if isinstance(old_value, base.TopologyAware):
+          old_value.sym_setparent(None)
+        self._sync_children_paths()
+        return base.FieldUpdate(
+            self.sym_path + index, self,
+            self._value_spec.element if self._value_spec else None,
+            old_value, pg_typing.MISSING_VALUE)
 
     new_value = self._formalized_value(index, value)
     if index < len(self):
@@ -486,20 +497,22 @@ class List(list, base.Symbolic, pg_typing.CustomTyping):
       self._onchange_callback(field_updates)
 
   def _parse_slice(self, index: slice) -> Tuple[int, int, int]:
-    start = index.start if index.start is not None else 0
-    start = max(-len(self), start)
-    start = min(len(self), start)
-    if start < 0:
-      start += len(self)
+    return index.indices(len(self))
 
-    stop = index.stop if index.stop is not None else len(self)
-    stop = max(-len(self), stop)
-    stop = min(len(self), stop)
-    if stop < 0:
-      stop += len(self)
-
-    step = index.step if index.step is not None else 1
-    return start, stop, step
+  def _check_size_after_slice_update(self, new_size: int) -> None:
+    """Raises if a slice update would violate the size bounds of the spec."""
+    if self._value_spec is None or new_size == len(self):
+      return
+    if self.max_size is not None and new_size > self.max_size:
+      raise ValueError(
+          self._error_message(
+              f'Cannot update slice: the number of elements ({new_size}) '
+              f'exceeds max size ({self.max_size}).'))
+    if new_size < self._value_spec.min_size:
+      raise ValueError(
+          self._error_message(
+              f'Cannot update slice: the number of elements ({new_size}) '
+              f'is less than min size ({self._value_spec.min_size}).'))
 
   def _init_kwargs(self) -> typing.Dict[str, Any]:
     kwargs = super()._init_kwargs()
@@ -549,26 +562,31 @@ class List(list, base.Symbolic, pg_typing.CustomTyping):
                               'Use \'rebind\' method instead.'))
     if isinstance(index, slice):
       start, stop, step = self._parse_slice(index)
-      replacements = [self._formalized_value(i, v) for i, v in enumerate(value)]
-      if step < 0:
-        replacements.reverse()
-        step = -step
-      slice_size = math.ceil((stop - start) * 1.0 / step)
+      replacements = list(
+          value.sym_values() if isinstance(value, List) else value)
       if step == 1:
-        if slice_size < len(replacements):
-          for i in range(slice_size, len(replacements)):
-            replacements[i] = Insertion(replacements[i])
-        else:
-          replacements.extend(
-              [pg_typing.MISSING_VALUE
-               for _ in range(slice_size - len(replacements))])
-      elif slice_size != len(replacements):
-        raise ValueError(
-            f'attempt to assign sequence of size {len(replacements)} to '
-            f'extended slice of size {slice_size}')
+        # A regular slice is replaced by the new values: common positions are
+        # overwritten, surplus old elements are removed (from the back, so the
+        # remaining indices stay valid) and surplus new values are inserted.
+        slice_size = max(0, stop - start)
+        self._check_size_after_slice_update(
+            len(self) - slice_size + len(replacements))
+        common = min(slice_size, len(replacements))
+        ops = [(start + i, replacements[i]) for i in range(common)]
+        ops.extend((start + i, pg_typing.MISSING_VALUE)
+                   for i in reversed(range(common, slice_size)))
+        ops.extend((start + i, Insertion(replacements[i]))
+                   for i in range(common, len(replacements)))
+      else:
+        positions = range(start, stop, step)
+        if len(positions) != len(replacements):
+          raise ValueError(
+              f'attempt to assign sequence of size {len(replacements)} to '
+              f'extended slice of size {len(positions)}')
+        ops = list(zip(positions, replacements))
       updates = []
-      for i, r in enumerate(replacements):
-        update = self._set_item_without_permission_check(start + i * step, r)
+      for i, r in ops:
+        update = self._set_item_without_permission_check(i, r)
         if update is not None:
           updates.append(update)
       if flags.is_change_notification_enabled() and updates:
@@ -585,7 +603,7 @@ class List(list, base.Symbolic, pg_typing.CustomTyping):
       raise TypeError(
           f'list assignment index must be an integer. Encountered {index!r}.')
 
-  def __delitem__(self, index: int) -> None:
+  def __delitem__(self, index: Union[int, slice]) -> None:
     """Delete an item from the List."""
     if base.treats_as_sealed(self):
       raise base.WritePermissionError('Cannot delete item from a sealed List.')
@@ -595,6 +613,20 @@ class List(list, base.Symbolic, pg_typing.CustomTyping):
           self._error_message('Cannot delete List item while accessor_writable '
                               'is set to False. '
                               'Use \'rebind\' method instead.'))
+    if isinstance(index, slice):
+      positions = sorted(range(*self._parse_slice(index)), reverse=True)
+      self._check_size_after_slice_update(len(self) - len(positions))
+      updates = []
+      for i in positions:
+        update = self._set_item_without_permission_check(
+            i, pg_typing.MISSING_VALUE)
+        if update is not None:
+          updates.append(update)
+      updates.reverse()
+      if flags.is_change_notification_enabled() and updates:
+        self._notify_field_updates(updates)
+      return
+
     if not isinstance(index, numbers.Integral):
       raise TypeError(
           f'list index must be an integer. Encountered {index!r}.')
